@@ -14,7 +14,7 @@ ASSUMPTIONS = [
     'mutator parameters (new control points, weights, inserted knot, translation vector, scale factor) are symbolic',
 ]
 OUTSIDE = ['histories longer than 4 operations', 'shapes larger than curve p2/4 points, surface (1,2) 2x3, volume (1,1,1)', 'visualisation components']
-BOUNDS = {'quick': 'all single mutators x {BSpline,NURBS} x {curve,surface} + NURBS volume; deep-copy independence; containers; rejected assignments; surface containers: add / edit / batch add / re-tessellation / deep copy with tessellation',
+BOUNDS = {'quick': 'all single mutators x {BSpline,NURBS} x {curve,surface} + NURBS volume; deep-copy independence; containers; rejected assignments; surface containers: add / edit / batch add / re-tessellation / deep copy with tessellation; knot read-modify-write through the caller list; partly rejected two-direction insert / remove',
           'thorough': 'all ordered pairs of a mutator subset'}
 
 
